@@ -277,8 +277,39 @@ func init() {
 				spec = gen.TLSLeaf(nb, "www.example.com")
 				lens := []int{1, 63, 64, 65, 66, 128, 32767, 32768, 32769, 40000}
 				gl, sl := lens[rng.Intn(len(lens))], lens[rng.Intn(len(lens))]
-				spec.Subject = gen.Name(gen.A(gen.OIDC, "US"), gen.A(gen.OIDGiven, strings.Repeat("g", gl)), gen.A(gen.OIDSurname, strings.Repeat("s", sl)), gen.A(gen.OIDCN, "www.example.com"))
-				how = fmt.Sprintf("givenName %d chars, surname %d chars", gl, sl)
+				if rng.Intn(2) == 0 {
+					spec.Subject = gen.Name(gen.A(gen.OIDC, "US"), gen.A(gen.OIDGiven, strings.Repeat("g", gl)), gen.A(gen.OIDSurname, strings.Repeat("s", sl)), gen.A(gen.OIDCN, "www.example.com"))
+					how = fmt.Sprintf("givenName %d chars, surname %d chars", gl, sl)
+				} else {
+					// one or two values per attribute, each in its own string type (the parser decodes some types and
+					// leaves others alone), one- and two-byte characters: both members of a pair must count alike
+					attrs := []gen.ATV{gen.A(gen.OIDC, "US")}
+					how = "name lengths:"
+					for _, oid := range []string{gen.OIDGiven, gen.OIDSurname} {
+						for v := 0; v < 1+rng.Intn(2); v++ {
+							n := lens[rng.Intn(len(lens))]
+							if v == 1 && rng.Intn(2) == 0 {
+								n = []int{1, 5, 64}[rng.Intn(3)]
+							}
+							ch := []string{"n", "é"}[rng.Intn(4)/3]
+							tag := []int{der.TagUTF8, der.TagPrintable, der.TagBMP, der.TagT61, der.TagUniversal, der.TagIA5}[rng.Intn(6)]
+							var val []byte
+							switch tag {
+							case der.TagBMP:
+								val = bmpOf(strings.Repeat(ch, n))
+							case der.TagUniversal:
+								for _, r := range strings.Repeat(ch, n) {
+									val = append(val, 0, 0, byte(r>>8), byte(r))
+								}
+							default:
+								val = []byte(strings.Repeat(ch, n))
+							}
+							attrs = append(attrs, gen.AT(oid, tag, val))
+							how += fmt.Sprintf(" %s=%dx%q as string type %d;", oid, n, ch, tag)
+						}
+					}
+					spec.Subject = gen.Name(append(attrs, gen.A(gen.OIDCN, "www.example.com"))...)
+				}
 			}
 			o, _ := mon.ParseObj(corpus.Cert, "gen/pairs", spec.DER())
 			if o == nil {
